@@ -83,7 +83,7 @@ FILTER_TEXT = [j("_filter:" + n) for n in ("LDAPFilter.from_string", "_unpack_fi
 VALUE_DECODERS = [j("_authentication:SimpleCredential.unpack"), j("_authentication:SaslCredential.unpack"), j("_authentication:AuthenticationCredential.unpack"),
                   j("_filter:_unpack_filter_attribute_value_assertion"), j("_controls:unpack_ldap_control")] + \
                  [j("_controls:%s.unpack" % n) for n in ("LDAPControl", "PagedResultControl", "ShowDeactivatedLinkControl", "ShowDeletedControl")] + \
-                 [j("_filter:%s.unpack" % n) for n in ("FilterEquality", "FilterGreaterOrEqual", "FilterLessOrEqual", "FilterApproxMatch", "FilterPresent", "FilterExtensibleMatch", "LDAPFilter")] + \
+                 [j("_filter:%s.unpack" % n) for n in ("FilterEquality", "FilterGreaterOrEqual", "FilterLessOrEqual", "FilterApproxMatch", "FilterPresent", "FilterExtensibleMatch", "FilterSubstrings", "LDAPFilter")] + \
                  [j("_messages:_unpack_%s" % n) for n in ("bind_request", "search_request", "extended_request", "ldap_result", "search_result_done", "bind_response", "extended_response", "search_result_reference", "partial_attribute", "search_result_entry")] + \
                  [j("specs.ldapmsg:" + n) for n in ("lemma_nth_rest_step", "lemma_rt_extended_request")] + DECODE_TREE[-6:]
 # C01: what the encoder's relation means for the decoder's postcondition (lemmas), and the round trip theorems that take both
@@ -93,7 +93,7 @@ RT_LEMMAS = [j("specs.ldapmsg:" + n) for n in ("lemma_strs_enc_nth", "lemma_strs
                                                "lemma_octs_enc_nth", "lemma_octs_enc_end", "lemma_octs_enc_nonempty", "thm_rt_octs",
                                                "thm_rt_ava_filter", "thm_rt_bind_request_simple", "thm_rt_bind_request_sasl", "thm_rt_search_request_fixed", "thm_rt_control")]
 _VD_NOTE = ("Proved for all octets (value-level postconditions over the X.690 denotation, which accepts every definite length form): both credential choices (SASL credentials present exactly when a UNIVERSAL primitive OCTET STRING follows "
-            "the mechanism - anything else is an ignored trailing element), the four AttributeValueAssertion filter choices, `present`, extensibleMatch (rule / type / value as folds) and the filter CHOICE dispatch by context tag number, the leading components of BindRequest (version, name), all fixed components of SearchRequest, "
+            "the mechanism - anything else is an ignored trailing element), the four AttributeValueAssertion filter choices, `present`, extensibleMatch (rule / type / value as folds), substrings (type, initial, final) and the filter CHOICE dispatch by context tag number, the leading components of BindRequest (version, name), all fixed components of SearchRequest, "
             "Control (criticality DEFAULT FALSE recognised by UNIVERSAL 1, controlValue by UNIVERSAL 4 after it, anything else ignored) and the paged-results value, LDAPResult with its optional referral list, the URIs of SearchResultReference, the attribute selection of SearchRequest, PartialAttribute with its values (list items = contents of the elements, in order, as many as there are elements), and the optional context-tagged components of ExtendedRequest / BindResponse / ExtendedResponse as a fold over the element stream "
             "(the last element with the tag wins, every unrecognised element is skipped: 'unknown trailing elements do not change the result' for all inputs). For ExtendedRequest the composition with the encoder's relation is a proved lemma "
             "(lemma_rt_extended_request): decoding what the encoder emits gives back name and value. The envelope decoder returns the messageID denoted by the first element and the message class selected by the APPLICATION tag number of the second. ")
